@@ -108,6 +108,7 @@ Definition sstep3 (p : params) (s : sstate3) (e : entry) : option sstate3 :=
       | _ => None                      (* a listener was missed *)
       end
   | EExc => None
+  | ESkip => None                      (* outside the domain of C03 *)
   end.
 
 Fixpoint srun3 (p : params) (s : sstate3) (log : list entry) : option sstate3 :=
@@ -202,6 +203,10 @@ Definition upd_reg (s : sstate) (r : list hid) : sstate :=
 Definition rel_done (cur : option delivery) : bool :=
   match cur with None => true | Some d => isnil (d_rem d) end.
 
+(* situations in which the harness does not let a component leave its row *)
+Definition sleave_blocked (h : hid) (s : sstate) : bool :=
+  inb h (s_gone s) || inb h (s_recv s) || (relay_holds h (s_pend s) && negb (isnil (s_recv s))).
+
 Definition sstep (p : params) (s : sstate) (e : entry) : option sstate :=
   if s_exc s then
     match e with
@@ -225,7 +230,7 @@ Definition sstep (p : params) (s : sstate) (e : entry) : option sstate :=
         (* deferred; guaranteed to be delivered iff the name has a listener now *)
         Some {| s_next := s_next s + 1; s_reg := s_reg s; s_gone := s_gone s; s_en := false;
                 s_pend := s_pend s ++ [{| q_tok := s_next s; q_ev := e; q_arg := x;
-                                          q_opt := isnil (listeners p e (s_reg s)) |}];
+                                          q_opt := isnil (listeners p e (s_reg s)); q_dir := None |}];
                 s_owed := s_owed s; s_rel := s_rel s; s_recv := s_recv s; s_exc := false |}
   | EAct (ASetEnabled false) =>
       Some {| s_next := s_next s; s_reg := s_reg s; s_gone := s_gone s; s_en := false;
@@ -245,12 +250,41 @@ Definition sstep (p : params) (s : sstate) (e : entry) : option sstate :=
       Some {| s_next := s_next s; s_reg := s_reg s; s_gone := s_gone s; s_en := s_en s;
               s_pend := s_pend s; s_owed := []; s_rel := []; s_recv := []; s_exc := true |}
   | EAct (ADrop h) =>
-      if inb h (s_gone s) || inb h (s_recv s) then Some s else
+      (* held by a callback in progress or by a postponed on_add: stays alive *)
+      if inb h (s_gone s) || inb h (s_recv s) || relay_holds h (s_pend s) then Some s else
       (* freed: unregistered, and owed nothing by the dispatches in progress *)
       Some {| s_next := s_next s; s_reg := hdel h (s_reg s); s_gone := h :: s_gone s; s_en := s_en s;
               s_pend := s_pend s; s_owed := map (strip_d h) (s_owed s);
               s_rel := map (fun r => (fst r, option_map (strip_d h) (snd r))) (s_rel s);
               s_recv := s_recv s; s_exc := false |}
+  | EAct (ACreate h) =>
+      (* a component enters the World while dispatching is disabled: registered at once,
+         its on_add (if its class handles it) pending, to be delivered to it directly *)
+      if s_en s || inb h (s_gone s) then None else
+      Some {| s_next := s_next s + 1; s_reg := hadd h (s_reg s); s_gone := s_gone s; s_en := false;
+              s_pend := s_pend s ++ relay p (s_next s) h; s_owed := s_owed s; s_rel := s_rel s;
+              s_recv := s_recv s; s_exc := false |}
+  | EAct (ARemoveC h) =>
+      (* the component leaves its World row: unregistered; freed, unless its postponed
+         on_add still holds it (then it stays alive until that is delivered) *)
+      if sleave_blocked h s then None else
+      if relay_holds h (s_pend s) then Some (upd_reg s (hdel h (s_reg s))) else
+      Some {| s_next := s_next s; s_reg := hdel h (s_reg s); s_gone := h :: s_gone s; s_en := s_en s;
+              s_pend := s_pend s; s_owed := map (strip_d h) (s_owed s);
+              s_rel := map (fun r => (fst r, option_map (strip_d h) (snd r))) (s_rel s);
+              s_recv := s_recv s; s_exc := false |}
+  | EAct (AReplace h h2) =>
+      if s_en s || inb h2 (s_gone s) || (h =? h2) || sleave_blocked h s then None else
+      if relay_holds h (s_pend s) then
+        Some {| s_next := s_next s + 1; s_reg := hadd h2 (hdel h (s_reg s)); s_gone := s_gone s; s_en := false;
+                s_pend := s_pend s ++ relay p (s_next s) h2; s_owed := s_owed s; s_rel := s_rel s;
+                s_recv := s_recv s; s_exc := false |}
+      else
+        Some {| s_next := s_next s + 1; s_reg := hadd h2 (hdel h (s_reg s)); s_gone := h :: s_gone s; s_en := false;
+                s_pend := s_pend s ++ relay p (s_next s) h2; s_owed := map (strip_d h) (s_owed s);
+                s_rel := map (fun r => (fst r, option_map (strip_d h) (snd r))) (s_rel s);
+                s_recv := s_recv s; s_exc := false |}
+  | ESkip => Some s
   | ECall h m t x =>
       match owed_call h m t x (s_owed s) with
       | Some (Some l) => Some (upd_owed s l (h :: s_recv s))
@@ -267,11 +301,12 @@ Definition sstep (p : params) (s : sstate) (e : entry) : option sstate :=
               | None =>
                   (* first call of the next pending event: dispatching is enabled, the
                      previous delivery is complete, every event before it can be passed
-                     over, and it goes to the handlers registered now *)
+                     over, and it goes to the handlers registered now (a postponed on_add:
+                     to its component) *)
                   if s_en s && rel_done cur then
                     match seek (fun e => listeners p e (s_reg s)) t (s_pend s) with
                     | Some (q, rest) =>
-                        match scall (q_tok q, q_arg q, listeners p (q_ev q) (s_reg s)) h m t x with
+                        match scall (q_tok q, q_arg q, targets (fun e => listeners p e (s_reg s)) q) h m t x with
                         | Some d' =>
                             Some {| s_next := s_next s; s_reg := s_reg s; s_gone := s_gone s; s_en := true;
                                     s_pend := rest; s_owed := s_owed s; s_rel := (r, Some d') :: rels;
@@ -343,7 +378,11 @@ Definition wf_classes (c : ecase) : bool :=
                       forallb (fun cm => nodupb (map fst (or_empty (snd cm)))) (co_tab (snd dob))) (c_classes c).
 
 Definition entry_enabled_only (e : entry) : bool :=
-  match e with EAct (ASetEnabled _) | EAct (ADrop _) => false | _ => true end.
+  match e with
+  | EAct (ASetEnabled _) | EAct (ADrop _) | EAct (ACreate _) | EAct (ARemoveC _) | EAct (AReplace _ _)
+  | ESkip => false
+  | _ => true
+  end.
 Definition entry_no_drop (e : entry) : bool :=
   match e with EAct (ADrop _) => false | _ => true end.
 
